@@ -1051,4 +1051,386 @@ theorem hGet_spec (w : World) (hv : Valid w) (layer : Nat) (t : Option Name) (c 
           have := copyArr_fresh w.heap a e he
           omega
 
+/-! ## one call -/
+
+theorem view_grows {w : World} (hv : Valid w) {h' : Heap} (hg : Grows w.heap h') :
+    view ⟨h', w.laser⟩ = view w ∧ Valid ⟨h', w.laser⟩ := by
+  refine ⟨?_, ?_⟩
+  · apply State.ext'
+    · rfl
+    · exact hg.viewLayers hv.data_ok
+    · show viewDict h' (h'.dict w.laser.cal) = _
+      rw [hg.dict]
+      exact viewDict_congr (fun e _ => hg.calOf e.2)
+    · show (h'.cfgOf w.laser.cfg).scal = _
+      rw [hg.cfgOf]; rfl
+  · refine ⟨by show w.laser.cal < h'.dicts.length; rw [hg.2.2.2.2.2]; exact hv.dict_lt, ?_,
+      by show w.laser.cfg < h'.cfgs.length; rw [hg.2.2.2.1]; exact hv.cfg_lt,
+      fun a ha => (hv.data_ok a ha).mono hg⟩
+    show ∀ e ∈ h'.dict w.laser.cal, e.2 < h'.cals.length
+    rw [hg.dict, hg.2.2.1]
+    exact hv.cal_lt
+
+theorem hstep_view' (w : World) (hv : Valid w) (op : HOp) (ha : ArgsOK w.heap op) (hc : op.isCall = true) :
+    (hstep w op).map view = stepE (view w) (absOp w.heap op) ∧ Valid (hstep w op).state := by
+  cases op with
+  | add n xs cal => exact hAdd_view w hv n xs cal ha.1 ha.2
+  | remove ns => exact hRemove_view w hv ns
+  | rename m => exact hRename_view w hv m
+  | get layer t c =>
+    obtain ⟨hok, herr⟩ := hGet_spec w hv layer t c
+    simp only [hstep, stepE, absOp]
+    cases hg : hGet w layer t c with
+    | error e =>
+      simp only [herr e hg, Res.map, Res.state]
+      exact ⟨trivial, hv⟩
+    | ok q =>
+      obtain ⟨r, h'⟩ := q
+      obtain ⟨h1, h2, _, _⟩ := hok r h' hg
+      obtain ⟨v1, v2⟩ := view_grows hv h2
+      simp only [h1, Res.map, Res.state]
+      exact ⟨by rw [show ({ w with heap := h' } : World) = ⟨h', w.laser⟩ from rfl, v1], v2⟩
+  | setCal k c => simp [HOp.isCall] at hc
+  | setCfg k c => simp [HOp.isCall] at hc
+  | setOffsets k c => simp [HOp.isCall] at hc
+  | writeOffsets o c => simp [HOp.isCall] at hc
+  | setDict k d => simp [HOp.isCall] at hc
+  | writeCell i c => simp [HOp.isCall] at hc
+
+/-! ## what a call keeps -/
+
+/-- the `Calibration` a call was handed -/
+def HOp.passed : HOp → Option Nat
+  | .add _ _ cal => cal
+  | _ => none
+
+/-- old cells and old `Calibration` objects keep their content, nothing shrinks; the laser's dict is the old
+one or a new one; every `Calibration` it references was referenced before, is new, or is the one handed in -/
+def Keeps (pc : Option Nat) (w w' : World) : Prop :=
+  w.heap.cells.length ≤ w'.heap.cells.length ∧ (∀ i, i < w.heap.cells.length → w'.heap.cell i = w.heap.cell i) ∧
+  w.heap.cals.length ≤ w'.heap.cals.length ∧ (∀ k, k < w.heap.cals.length → w'.heap.calOf k = w.heap.calOf k) ∧
+  w.heap.dicts.length ≤ w'.heap.dicts.length ∧ w.heap.cfgs.length ≤ w'.heap.cfgs.length ∧
+  (w'.laser.cal = w.laser.cal ∨ w.heap.dicts.length ≤ w'.laser.cal) ∧
+  (∀ e ∈ w'.heap.dict w'.laser.cal,
+    (∃ e' ∈ w.heap.dict w.laser.cal, e'.2 = e.2) ∨ w.heap.cals.length ≤ e.2 ∨ pc = some e.2) ∧
+  w'.laser.cfg = w.laser.cfg
+
+theorem Keeps.of_grows {pc : Option Nat} {w : World} {h' : Heap} {l : List Arr} (hg : Grows w.heap h') :
+    Keeps pc w ⟨h', { w.laser with data := l }⟩ := by
+  refine ⟨hg.1, fun i hi => hg.cell hi, Nat.le_of_eq (by rw [hg.2.2.1]), fun k _ => hg.calOf k,
+    Nat.le_of_eq (by rw [hg.2.2.2.2.2]), Nat.le_of_eq (by rw [hg.2.2.2.1]), Or.inl rfl, ?_, rfl⟩
+  intro e he
+  rw [show (⟨h', { w.laser with data := l }⟩ : World).heap.dict _ = h'.dict w.laser.cal from rfl, hg.dict] at he
+  exact Or.inl ⟨e, he, rfl⟩
+
+theorem rebuildDict_values (m : NameMap) (d : Dict) {e : Name × Nat} (he : e ∈ rebuildDict d m) :
+    ∃ e' ∈ d, e'.2 = e.2 := by
+  unfold rebuildDict at he
+  have gen : ∀ (l acc : Dict), e ∈ l.foldl (fun acc e => dictSet acc (sub m e.1) e.2) acc →
+      (∃ e' ∈ l, e'.2 = e.2) ∨ e ∈ acc := by
+    intro l
+    induction l with
+    | nil => intro acc h; exact Or.inr h
+    | cons x r ih =>
+      intro acc h
+      simp only [List.foldl_cons] at h
+      rcases ih _ h with ⟨e', he', h1⟩ | h1
+      · exact Or.inl ⟨e', by simp [he'], h1⟩
+      · rcases mem_dictSet h1 with h2 | h2
+        · exact Or.inr h2
+        · exact Or.inl ⟨x, by simp, by rw [h2]⟩
+  rcases gen _ _ he with h1 | h1
+  · exact h1
+  · simp at h1
+
+theorem hstep_keeps (w : World) (hv : Valid w) (op : HOp) (ha : ArgsOK w.heap op) (hc : op.isCall = true) :
+    Keeps op.passed w (hstep w op).state := by
+  cases op with
+  | add n xs cal =>
+    simp only [hstep, HOp.passed]
+    unfold hAdd
+    split
+    · exact Keeps.of_grows (l := w.laser.data) (Grows.refl _)
+    · cases hE : hAddLayers n w.laser.data xs w.heap with
+      | error q =>
+        obtain ⟨e, ls, h⟩ := q
+        obtain ⟨_, hg, _⟩ := hAddLayers_error n _ _ _ _ _ _ hv.data_ok ha.1 hE
+        exact Keeps.of_grows hg
+      | ok q =>
+        obtain ⟨ls, h⟩ := q
+        obtain ⟨_, hg, _, _⟩ := hAddLayers_ok n _ _ _ _ _ hv.data_ok ha.1 hE
+        have hdl : w.laser.cal < h.dicts.length := by rw [hg.2.2.2.2.2]; exact hv.dict_lt
+        have hd : ∀ e ∈ h.dict w.laser.cal, e.2 < h.cals.length := by
+          rw [hg.dict, hg.2.2.1]; exact hv.cal_lt
+        have hcal' : ∀ k, cal = some k → k < h.cals.length := by rw [hg.2.2.1]; exact ha.2
+        obtain ⟨s1, s2, _, s4, s5, s6, _, _, s9, _⟩ := storeCal_spec h w.laser.cal n cal hdl hd hcal'
+        simp only [Res.state]
+        refine ⟨by show _ ≤ (h.storeCal w.laser.cal n cal).cells.length; rw [s1]; exact hg.1, ?_,
+          by show _ ≤ (h.storeCal w.laser.cal n cal).cals.length; rw [← hg.2.2.1]; exact s5, ?_,
+          Nat.le_of_eq (by show _ = (h.storeCal w.laser.cal n cal).dicts.length; rw [s4, hg.2.2.2.2.2]),
+          Nat.le_of_eq (by show _ = (h.storeCal w.laser.cal n cal).cfgs.length; rw [s2, hg.2.2.2.1]), Or.inl rfl, ?_, rfl⟩
+        · intro i hi
+          show (h.storeCal w.laser.cal n cal).cell i = _
+          unfold Heap.cell
+          rw [s1]
+          exact hg.cell hi
+        · intro k hk
+          show (h.storeCal w.laser.cal n cal).calOf k = _
+          rw [s6 k (by rw [hg.2.2.1]; exact hk), hg.calOf]
+        · intro e he
+          rcases s9 e he with h1 | h1
+          · rw [hg.dict] at h1
+            exact Or.inl ⟨e, h1, rfl⟩
+          · cases cal with
+            | none =>
+              right; left
+              rw [h1]
+              simp [hg.2.2.1]
+            | some k =>
+              right; right
+              rw [h1]
+              rfl
+  | remove ns =>
+    simp only [hstep, HOp.passed]
+    have hspec := hDropLayers_spec ns w.laser.data w.heap hv.data_ok
+    unfold hRemove
+    rcases hD : hDropLayers ns w.laser.data w.heap with ⟨dl, dh⟩
+    rw [hD] at hspec
+    obtain ⟨_, hg, _, _⟩ := hspec
+    simp only at hg ⊢
+    have hdl : w.laser.cal < dh.dicts.length := by rw [hg.2.2.2.2.2]; exact hv.dict_lt
+    have key : Keeps none w ⟨⟨dh.cells, dh.cals, dh.cfgs, dh.offs,
+        dh.dicts.set w.laser.cal (popAllE (dh.dict w.laser.cal) ns).1⟩, ⟨w.laser.srr, dl, w.laser.cal, w.laser.cfg⟩⟩ := by
+      refine ⟨hg.1, fun i hi => hg.cell hi, Nat.le_of_eq (by show _ = dh.cals.length; rw [hg.2.2.1]), fun k _ => hg.calOf k,
+        Nat.le_of_eq (by show _ = (List.set _ _ _).length; rw [List.length_set, hg.2.2.2.2.2]),
+        Nat.le_of_eq (by show _ = dh.cfgs.length; rw [hg.2.2.2.1]), Or.inl rfl, ?_, rfl⟩
+      intro e he
+      rw [dict_set_self _ hdl, hg.dict] at he
+      exact Or.inl ⟨e, popAllE_subset ns _ e he, rfl⟩
+    split <;> exact key
+  | rename m =>
+    simp only [hstep, HOp.passed]
+    unfold hRename
+    cases hE : renameLayersE m w.laser.data with
+    | error p =>
+      obtain ⟨e, ls⟩ := p
+      exact Keeps.of_grows (Grows.refl _)
+    | ok ls =>
+      simp only [Res.state, Heap.allocDict]
+      refine ⟨Nat.le_refl _, fun _ _ => rfl, Nat.le_refl _, fun _ _ => rfl,
+        by show _ ≤ (w.heap.dicts ++ [_]).length; simp, Nat.le_refl _, Or.inr (Nat.le_refl _), ?_, rfl⟩
+      intro e he
+      have hdict : (⟨w.heap.cells, w.heap.cals, w.heap.cfgs, w.heap.offs,
+          w.heap.dicts ++ [rebuildDict (w.heap.dict w.laser.cal) m]⟩ : Heap).dict w.heap.dicts.length
+          = rebuildDict (w.heap.dict w.laser.cal) m := by
+        unfold Heap.dict
+        simp
+      have he' : e ∈ rebuildDict (w.heap.dict w.laser.cal) m := by rw [← hdict]; exact he
+      exact Or.inl (rebuildDict_values m _ he')
+  | get layer t c =>
+    simp only [hstep, HOp.passed]
+    obtain ⟨hok, _⟩ := hGet_spec w hv layer t c
+    cases hg : hGet w layer t c with
+    | error e => exact Keeps.of_grows (l := w.laser.data) (Grows.refl _)
+    | ok q =>
+      obtain ⟨r, h'⟩ := q
+      obtain ⟨_, h2, _, _⟩ := hok r h' hg
+      exact Keeps.of_grows (l := w.laser.data) h2
+  | setCal k c => simp [HOp.isCall] at hc
+  | setCfg k c => simp [HOp.isCall] at hc
+  | setOffsets k c => simp [HOp.isCall] at hc
+  | writeOffsets o c => simp [HOp.isCall] at hc
+  | setDict k d => simp [HOp.isCall] at hc
+  | writeCell i c => simp [HOp.isCall] at hc
+
+/-! ## separation and histories -/
+
+theorem Sep.of_keeps {F : Foreign} {pc : Option Nat} {w w' : World} (hs : Sep F w) (hk : Keeps pc w w')
+    (hpc : ∀ k, pc = some k → k ∉ F.cals) : Sep F w' := by
+  obtain ⟨b1, b2, b3, s1, s2, s3⟩ := hs
+  obtain ⟨_, _, k3, _, k5, k6, k7, k8, k9⟩ := hk
+  refine ⟨fun k hk => Nat.lt_of_lt_of_le (b1 k hk) k3, fun k hk => Nat.lt_of_lt_of_le (b2 k hk) k5,
+    fun k hk => Nat.lt_of_lt_of_le (b3 k hk) k6, ?_, ?_, by rw [k9]; exact s3⟩
+  · rcases k7 with h | h
+    · rw [h]; exact s1
+    · intro hm
+      have := b2 _ hm
+      omega
+  · intro e he hm
+    rcases k8 e he with ⟨e', he', h1⟩ | h1 | h1
+    · exact s2 e' he' (h1 ▸ hm)
+    · have := b1 _ hm
+      omega
+    · exact hpc _ h1 hm
+
+/-- memory the history started with: its cells, and its `Calibration` objects other than the foreign ones,
+still hold what they held -/
+def Stable (F : Foreign) (h0 h : Heap) : Prop :=
+  h0.cells.length ≤ h.cells.length ∧ (∀ i, i < h0.cells.length → h.cell i = h0.cell i) ∧
+  h0.cals.length ≤ h.cals.length ∧ (∀ k, k < h0.cals.length → k ∉ F.cals → h.calOf k = h0.calOf k)
+
+theorem Stable.of_keeps {F : Foreign} {pc : Option Nat} {h0 : Heap} {w w' : World} (hs : Stable F h0 w.heap)
+    (hk : Keeps pc w w') : Stable F h0 w'.heap := by
+  obtain ⟨a1, a2, a3, a4⟩ := hs
+  obtain ⟨k1, k2, k3, k4, _⟩ := hk
+  exact ⟨Nat.le_trans a1 k1, fun i hi => (k2 i (Nat.lt_of_lt_of_le hi a1)).trans (a2 i hi), Nat.le_trans a3 k3,
+    fun k hk hn => (k4 k (Nat.lt_of_lt_of_le hk a3)).trans (a4 k hk hn)⟩
+
+theorem Allowed.argsOK {F : Foreign} {h0 h : Heap} {op : HOp} (hs : Stable F h0 h) (ha : Allowed F h0 op) :
+    ArgsOK h op := by
+  cases op with
+  | add n xs cal =>
+    exact ⟨fun x hx => Nat.lt_of_lt_of_le (ha.1 x hx) hs.1, fun k hk => Nat.lt_of_lt_of_le (ha.2 k hk).1 hs.2.2.1⟩
+  | _ => trivial
+
+theorem Allowed.absOp_eq {F : Foreign} {h0 h : Heap} {op : HOp} (hs : Stable F h0 h) (ha : Allowed F h0 op) :
+    absOp h op = absOp h0 op := by
+  cases op with
+  | add n xs cal =>
+    simp only [absOp]
+    congr 1
+    · apply List.map_congr_left
+      intro x hx
+      rw [hs.2.1 x.2 (ha.1 x hx)]
+    · cases cal with
+      | none => rfl
+      | some k =>
+        obtain ⟨h1, h2⟩ := ha.2 k rfl
+        simp only [Option.map_some, Option.getD_some]
+        exact hs.2.2.2 k h1 h2
+  | _ => rfl
+
+theorem Allowed.passed_not_foreign {F : Foreign} {h0 : Heap} {op : HOp} (ha : Allowed F h0 op) :
+    ∀ k, op.passed = some k → k ∉ F.cals := by
+  cases op with
+  | add n xs cal => exact fun k hk => (ha.2 k hk).2
+  | _ => intro k hk; simp [HOp.passed] at hk
+
+/-- an edit of a foreign object by its holder: the laser does not see it -/
+theorem foreign_edit {F : Foreign} {h0 : Heap} {w : World} (hv : Valid w) (hs : Sep F w) (hst : Stable F h0 w.heap)
+    {op : HOp} (ha : Allowed F h0 op) (hc : op.isCall = false) :
+    ∃ w', hstep w op = .ok w' ∧ view w' = view w ∧ w'.laser = w.laser ∧ Valid w' ∧ Sep F w' ∧ Stable F h0 w'.heap := by
+  obtain ⟨b1, b2, b3, s1, s2, s3⟩ := hs
+  obtain ⟨v1, v2, v3, v4⟩ := hv
+  cases op with
+  | add n xs cal => simp [HOp.isCall] at hc
+  | remove ns => simp [HOp.isCall] at hc
+  | rename m => simp [HOp.isCall] at hc
+  | get layer t c => simp [HOp.isCall] at hc
+  | setCal k c =>
+    have hk : k ∈ F.cals := ha
+    have hne : ∀ e ∈ w.heap.dict w.laser.cal, (w.heap.cals.set k c)[e.2]? = w.heap.cals[e.2]? :=
+      fun e he => List.getElem?_set_ne (fun (hh : k = e.2) => s2 e he (hh ▸ hk))
+    refine ⟨_, rfl, ?_, rfl, ⟨v1, ?_, v3, v4⟩, ⟨?_, b2, b3, s1, s2, s3⟩, ?_⟩
+    · apply State.ext'
+      · rfl
+      · rfl
+      · exact mapV_congr (fun e he => by
+          show ((w.heap.cals.set k c)[e.2]?).getD 0 = (w.heap.cals[e.2]?).getD 0
+          rw [hne e he])
+      · rfl
+    · intro e he
+      show e.2 < (w.heap.cals.set k c).length
+      rw [List.length_set]; exact v2 e he
+    · intro j hj
+      show j < (w.heap.cals.set k c).length
+      rw [List.length_set]; exact b1 j hj
+    · obtain ⟨a1, a2, a3, a4⟩ := hst
+      refine ⟨a1, a2, by show _ ≤ (w.heap.cals.set k c).length; rw [List.length_set]; exact a3, ?_⟩
+      intro j hj hn
+      show ((w.heap.cals.set k c)[j]?).getD 0 = _
+      rw [List.getElem?_set_ne (fun (hh : k = j) => hn (hh ▸ hk))]
+      exact a4 j hj hn
+  | setCfg k c =>
+    have hk : k ∈ F.cfgs := ha
+    have hne : k ≠ w.laser.cfg := fun hh => s3 (hh ▸ hk)
+    refine ⟨_, rfl, ?_, rfl, ⟨v1, v2, by show _ < (List.set _ _ _).length; rw [List.length_set]; exact v3, v4⟩,
+      ⟨b1, b2, fun j hj => by show j < (List.set _ _ _).length; rw [List.length_set]; exact b3 j hj, s1, s2, s3⟩, hst⟩
+    apply State.ext'
+    · rfl
+    · rfl
+    · rfl
+    · show (Heap.cfgOf _ w.laser.cfg).scal = _
+      unfold Heap.cfgOf
+      simp only [List.getElem?_set_ne hne]
+      rfl
+  | setOffsets k c =>
+    have hk : k ∈ F.cfgs := ha
+    have hne : k ≠ w.laser.cfg := fun hh => s3 (hh ▸ hk)
+    refine ⟨_, rfl, ?_, rfl, ⟨v1, v2, by show _ < (List.set _ _ _).length; rw [List.length_set]; exact v3, v4⟩,
+      ⟨b1, b2, fun j hj => by show j < (List.set _ _ _).length; rw [List.length_set]; exact b3 j hj, s1, s2, s3⟩, hst⟩
+    apply State.ext'
+    · rfl
+    · rfl
+    · rfl
+    · show (Heap.cfgOf _ w.laser.cfg).scal = _
+      unfold Heap.cfgOf Heap.allocOffs
+      simp only [List.getElem?_set_ne hne]
+      rfl
+  | writeOffsets o c =>
+    exact ⟨_, rfl, rfl, rfl, ⟨v1, v2, v3, v4⟩, ⟨b1, b2, b3, s1, s2, s3⟩, hst⟩
+  | setDict k d =>
+    have hk : k ∈ F.dicts := ha
+    have hne : k ≠ w.laser.cal := fun hh => s1 (hh ▸ hk)
+    have hd : (⟨w.heap.cells, w.heap.cals, w.heap.cfgs, w.heap.offs, w.heap.dicts.set k d⟩ : Heap).dict w.laser.cal
+        = w.heap.dict w.laser.cal := by
+      unfold Heap.dict
+      simp only [List.getElem?_set_ne hne]
+    refine ⟨_, rfl, ?_, rfl, ⟨by show _ < (List.set _ _ _).length; rw [List.length_set]; exact v1, ?_, v3, v4⟩,
+      ⟨b1, fun j hj => by show j < (List.set _ _ _).length; rw [List.length_set]; exact b2 j hj, b3, s1, ?_, s3⟩, hst⟩
+    · apply State.ext'
+      · rfl
+      · rfl
+      · show viewDict _ (Heap.dict _ w.laser.cal) = _
+        rw [hd]; rfl
+      · rfl
+    · intro e he
+      rw [hd] at he
+      exact v2 e he
+    · intro e he
+      rw [hd] at he
+      exact s2 e he
+  | writeCell i c => exact absurd ha (by simp [Allowed])
+
+theorem history_view' (F : Foreign) (h0 : Heap) : ∀ (ops : List HOp) (w w' : World), Valid w → Sep F w →
+    Stable F h0 w.heap → (∀ op ∈ ops, Allowed F h0 op) → hrun w ops = some w' →
+    run (view w) (ops.map (absOp h0)) = some (view w') ∧ Valid w' ∧ Sep F w' := by
+  intro ops
+  induction ops with
+  | nil =>
+    intro w w' hv hs _ _ hr
+    simp only [hrun, Option.some.injEq] at hr
+    subst hr
+    exact ⟨rfl, hv, hs⟩
+  | cons op r ih =>
+    intro w w' hv hs hst hall hr
+    have ha : Allowed F h0 op := hall op (by simp)
+    have hall' : ∀ o ∈ r, Allowed F h0 o := fun o ho => hall o (by simp [ho])
+    simp only [hrun] at hr
+    simp only [List.map_cons, run]
+    cases hc : op.isCall with
+    | true =>
+      have hargs := Allowed.argsOK hst ha
+      obtain ⟨h1, h2⟩ := hstep_view' w hv op hargs hc
+      have hk := hstep_keeps w hv op hargs hc
+      rw [Allowed.absOp_eq hst ha] at h1
+      cases hstp : hstep w op with
+      | fail e w1 => rw [hstp] at hr; simp at hr
+      | ok w1 =>
+        rw [hstp] at hr h1 h2 hk
+        simp only [Res.map, Res.state] at h1 h2 hk
+        have hstep' : step (view w) (absOp h0 op) = some (view w1) := by
+          rw [← stepE_toOption, ← h1]; rfl
+        rw [hstep']
+        exact ih w1 w' h2 (hs.of_keeps hk (Allowed.passed_not_foreign ha)) (hst.of_keeps hk) hall' hr
+    | false =>
+      obtain ⟨w1, e1, e2, _, e4, e5, e6⟩ := foreign_edit hv hs hst ha hc
+      rw [e1] at hr
+      have habs : absOp h0 op = .callerEdit := by
+        cases op <;> simp_all [HOp.isCall, absOp]
+      rw [habs]
+      simp only [step]
+      rw [← e2]
+      exact ih w1 w' e4 e5 e6 hall' hr
+
 end Pew.LaserEdit
